@@ -157,6 +157,26 @@ def run_object_case(oi, si):
             got = False
         if got != want:
             return False
+        # 3b. the same for a language marking (2.1), alone and next to a valid marking-ref marking, and through new_version
+        if oi != 2:
+            for gm in ([{"lang": "fr", "selectors": [sel]}], [{"marking_ref": M1, "selectors": [PATHS[oi][0]]}, {"lang": "de", "selectors": [sel]}]):
+                d = dict(JS[oi])
+                d["granular_markings"] = gm
+                try:
+                    stix2.parse(d, version="2.1")
+                    got = True
+                except (InvalidSelectorError, STIXError, ValueError):
+                    got = False
+                if got != want:
+                    return False
+            if "modified" in JS[oi]:
+                try:
+                    obj.new_version(granular_markings=[{"lang": "fr", "selectors": [sel]}])
+                    got = True
+                except (InvalidSelectorError, STIXError, ValueError):
+                    got = False
+                if got != want:
+                    return False
     return True
 
 
